@@ -1039,6 +1039,13 @@ def _run(sc, S, obs):
         except BaseException as e:  # noqa
             obs['exit_outcome'] = 'raise ' + repr(e)[:200]
         obs['exit_virtual_s'] = round(S.now - t_exit0, 4)
+        try:
+            if pool.pool_params.enable_insights:
+                obs['insights_after_exit'] = pool.get_insights()        # what the pool reports once the with-block has been left
+        except (sim.Stuck, sim.SimAbort):
+            raise
+        except BaseException as e:  # noqa
+            obs['insights_after_exit'] = {'error': repr(e)[:200]}
         if obs.get('_open_gens'):
             # the with-block has been left while the caller still holds a lazy call's generator: nothing of the pool runs any more
             try:
